@@ -24,7 +24,7 @@ K_TR = 'F03-done-callback-clears-newer-task'           # a single live task that
 K_RACE = 'F15-race-connect-children-survive-cancel'
 
 CODE = {'QUEUED': 0, 'INITIALIZING': 1, 'UPLOADING': 2, 'DOWNLOADING': 2, 'ABORTED': 3, 'PAUSED': 3,
-        'COMPLETE': 4, 'FAILED': 4, 'INCOMPLETE': 5, 'VIRGIN': 6}
+        'COMPLETE': 4, 'FAILED': 4, 'INCOMPLETE': 0, 'VIRGIN': 6}   # INCOMPLETE behaves like QUEUED for every modelled event
 
 
 class Entry:
@@ -37,6 +37,7 @@ class Entry:
 class Driver:
     def __init__(self, mode='race'):
         from checks.c05_world import TW
+        self.mode = mode
         self.tw = TW(slots=10, connect_mode=mode, driven=False, nusers=3)
         tw = self.tw
         for n in tw.names:
@@ -69,17 +70,19 @@ class Driver:
         orig_send, orig_mt = net.send_peer_messages, tm.manage_transfers
         drv = self
 
-        def make(kind, orig):
-            def factory(transfer):
+        def make(kind, orig, created_note=None):
+            def factory(transfer, *args):
                 es = drv.entries.setdefault(id(transfer), [])
                 e = Entry(kind, transfer, len(es))
                 es.append(e)
+                if created_note:
+                    drv.note(created_note, transfer, -1)
 
                 async def body():
                     e.started = True
                     drv.note('start', transfer, e.k)
                     try:
-                        return await orig(transfer)
+                        return await orig(transfer, *args)
                     except asyncio.CancelledError:
                         e.cancelled = True
                         raise
@@ -90,13 +93,14 @@ class Driver:
                                 if not e.delivered:
                                     drv.note('connfail', transfer, e.k)
                             else:
-                                drv.note('connfail' if transfer.state.VALUE.name == 'QUEUED' else 'finish', transfer, e.k)
+                                drv.note({'QUEUED': 'connfail', 'INCOMPLETE': 'interrupt'}.get(transfer.state.VALUE.name, 'finish'), transfer, e.k)
                 e.coro = body()
                 drv.check_flight(transfer)
                 return e.coro
             return factory
         tm._queue_remotely = make('RQ', orig_qr)
         tm._initialize_upload = make('TR', orig_iu)
+        tm._initialize_download = make('TR', tm._initialize_download, created_note='peermsg')
 
         async def send(username, *messages, **kw):
             e = drv._entry_of_current()
@@ -134,6 +138,14 @@ class Driver:
             drv.check_flight(t)
         t._remotely_queue_task_complete = cb1
         t._transfer_task_complete = cb2
+
+        class L:
+            async def on_transfer_state_changed(self, transfer, old, new):
+                if new.name in ('DOWNLOADING', 'UPLOADING'):
+                    e = drv._entry_of_current()
+                    if e is not None and e.transfer is transfer:
+                        drv.note('begin', transfer, e.k)
+        t.state_listeners.append(L())
 
     def note(self, what, transfer, k):
         i = self.ts.index(transfer) if transfer in self.ts else None
@@ -190,8 +202,10 @@ class Driver:
             for what, ti, k in self.log[pos:]:
                 if what == 'cycle':
                     evs.append('Cycle')
+                elif ti == i and what == 'peermsg':
+                    evs.append('PeerMsg')
                 elif ti == i and k is not None:
-                    evs.append({'start': 'Start', 'deliver': 'Deliver', 'connfail': 'ConnFail', 'finish': 'Finish',
+                    evs.append({'start': 'Start', 'begin': 'Begin', 'interrupt': 'Interrupt', 'deliver': 'Deliver', 'connfail': 'ConnFail', 'finish': 'Finish',
                                 'donecb': 'DoneCb'}[what] + f' {k}')
             self.cursor[i] = len(self.log)
             self.check_flight(t)
@@ -257,6 +271,41 @@ class Driver:
                 if reqs and ep is not None:
                     ep.feed(PeerTransferReply.Request(reqs[-1].ticket, False, reason='Cancelled').serialize())
                     tw.settle(100)
+        elif kind == 'PReq':     # the peer announces it is ready to upload the file of download k to us
+            k = op[1]
+            # (a request for a FAILED download re-queues it first: COMPLETE and FAILED are one model state, not driven)
+            if k < len(self.ts) and self.ts[k].is_download() and self.ts[k] in tw.tm.transfers \
+                    and self.ts[k].state.VALUE.name != 'FAILED':
+                from aioslsk.protocol.messages import PeerTransferRequest
+                t = self.ts[k]
+                ep = tw.peer_ep(t.username)
+                if ep is not None and not ep.remote_closed:
+                    self.ticket = getattr(self, 'ticket', 9000) + 1
+                    self.ptickets = getattr(self, 'ptickets', {})
+                    self.ptickets[k] = self.ticket
+                    ep.feed(PeerTransferRequest.Request(1, self.ticket, t.remote_path, filesize=10).serialize())
+                    tw.settle(100)
+        elif kind == 'FConn':    # the peer opens the file connection for download k and sends the ticket; then
+            k, how = op[1], op[2]    # 'open' nothing more | 'err' read error | 'eof' early EOF | 'data' the whole file
+            tk = getattr(self, 'ptickets', {}).get(k)
+            if tk is not None and k < len(self.ts) and self.ts[k].state.VALUE.name == 'INITIALIZING':
+                from aioslsk.protocol.messages import PeerInit
+                from aioslsk.protocol.primitives import uint32
+                t = self.ts[k]
+                self.fconn = getattr(self, 'fconn', {})
+                fe = tw.w.net.incoming(60000, peername=(tw.user_ip(t.username), 41000 + len(self.fconn)))
+                self.fconn[k] = fe
+                del self.ptickets[k]
+                fe.feed(PeerInit.Request(t.username, 'F', 0).serialize() + uint32(tk).serialize())
+                tw.settle(100)
+                self._fend(k, how)
+        elif kind == 'FEnd':
+            self._fend(op[1], op[2])
+        elif kind == 'Drop':     # the peer closes its message connections
+            for u, ep in tw.eps:
+                if u == f'u{op[1]}' and not ep.remote_closed:
+                    ep.feed_eof()
+            tw.settle(100)
         elif kind in ('A', 'P', 'X', 'RQ'):
             k = op[1]
             if k >= len(self.ts):
@@ -275,7 +324,7 @@ class Driver:
                         ue[k] = ['Requeue']
                     tw.settle(60)
             else:
-                stoppable = t.state.VALUE.name in ('QUEUED', 'INITIALIZING', 'UPLOADING', 'DOWNLOADING')
+                stoppable = t.state.VALUE.name in ('QUEUED', 'INITIALIZING', 'UPLOADING', 'DOWNLOADING', 'INCOMPLETE')
                 in_slots = [e for e in (self.slot_entry(t, 'RQ'), self.slot_entry(t, 'TR')) if e is not None]
                 live_before = self.live_entries(t)
                 api = {'A': tw.tm.abort, 'P': tw.tm.pause, 'X': tw.tm.remove}[kind]
@@ -290,7 +339,7 @@ class Driver:
                     ue[k] = [{'A': 'Abort', 'P': 'Pause', 'X': 'Remove'}[kind]]
                     if stoppable:
                         others_active = any(x is not t and x.username == t.username and x.state.VALUE.name in
-                                            ('QUEUED', 'INITIALIZING', 'UPLOADING', 'DOWNLOADING') for x in self.ts)
+                                            ('QUEUED', 'INITIALIZING', 'UPLOADING', 'DOWNLOADING', 'INCOMPLETE') for x in self.ts)
                         self.markers.append({
                             'k': k, 'op': kind, 'wlog': len(tw.wlog), 'fields': self.fields(t), 'connects': self.nconnects(t.username),
                             'live_at_return': [(e.kind, e.k) for e in at_return.get('live', [])],
@@ -305,6 +354,20 @@ class Driver:
         else:
             raise ValueError(op)
         self.flush(ue)
+
+    def _fend(self, k, how):
+        fe = getattr(self, 'fconn', {}).get(k)
+        if fe is None or how == 'open' or k >= len(self.ts) or self.ts[k].state.VALUE.name != 'DOWNLOADING':
+            return
+        if how == 'err':
+            fe.set_exception(ConnectionResetError('reset by peer'))
+        elif how == 'eof':
+            fe.feed(b'1234')
+            fe.feed_eof()
+        else:
+            fe.feed(b'0123456789')
+        del self.fconn[k]
+        self.tw.settle(100)
 
     def window(self):
         """Observation window: release everything as successful, let 70 virtual seconds pass."""
@@ -366,7 +429,8 @@ class Driver:
                 else:
                     out.append(('activity-after-stop', f"after {m['op']} of transfer {m['k']} returned: " + '; '.join(what)))
             elif new_conn and m['alone']:
-                if m['race_children']:
+                direct = [n for n in m['race_children'] if n.startswith('direct-connect-')]
+                if self.mode == 'race' and direct and new_conn <= len(direct):
                     out.append((K_RACE, f"after {m['op']} of transfer {m['k']} returned (no task of it live): {new_conn} new connection "
                                         f"attempt(s) to {t.username} by {m['race_children']}"))
                 else:
@@ -401,7 +465,36 @@ W_TR = {'mode': 'fallback', 'ops': [['Mode', 0, 'slow'], ['U', 0], ['T', 0.3], [
 W_RACE = {'mode': 'race', 'ops': [['Addr', 0, 'hold'], ['D', 0], ['T', 0.3], ['A', 0]]}
 
 
+def gen_peer_ops(rng):
+    """Peer-initiated negotiation: the download is remotely queued, the peer offers the file, the file
+    connection ends one way or another; stops / cycles / connection loss at random points."""
+    u = rng.randrange(0, 2)
+    ops = [['D', u], ['T', 0.3]]
+    extra = lambda: rng.choice([['T', rng.choice([0.0, 0.06, 0.3, 1.0])], ['Poke'], [rng.choice(['A', 'P', 'X']), 0], ['RQ', 0],
+                                ['Drop', u], ['Mode', u, rng.choice(['slow', 'hang', 'ok', 'refuse'])], ['Addr', u, 'hold'],
+                                ['PReq', 0], ['Rel', u, rng.random() < 0.5]])
+    def maybe(p=0.3):
+        while rng.random() < p:
+            ops.append(extra())
+    maybe()
+    ops.append(['PReq', 0])
+    maybe()
+    if rng.random() < 0.85:
+        ops.append(['FConn', 0, rng.choice(['open', 'err', 'err', 'eof', 'data'])])
+        maybe()
+        if ops[-1][:1] == ['FConn'] and ops[-1][2] == 'open' or rng.random() < 0.3:
+            ops.append(['FEnd', 0, rng.choice(['err', 'eof', 'data'])])
+    if rng.random() < 0.7:
+        ops += [['Drop', u], rng.choice([['Mode', u, 'slow'], ['Addr', u, 'hold'], ['Mode', u, 'hang']]), ['T', 0.3]]
+    maybe(0.5)
+    ops.append([rng.choice(['A', 'P', 'X', 'A']), 0])
+    maybe(0.4)
+    return ops
+
+
 def gen_ops(rng):
+    if rng.random() < 0.25:
+        return gen_peer_ops(rng)
     ops = []
     nt = 0
     style = rng.choice(['dl', 'dl', 'ul', 'mix'])
